@@ -5,8 +5,8 @@ from .. import env, coq, runner, tables
 
 LEVEL = 'proof'
 META = dict(
-    text='Coq theorems (closed under the global context) over a hand-written Gallina model of measurement keys (path, name), key maps, scoped lookup of control keys, classical conditions and CircuitOperation with all its fields, written in the shape of the code (_mapped_any_loop: qubit map -> inverse for negative repetitions -> key map -> parameters; _mapped_single_loop: rescoping with the repetition id, then with parent path and extern keys; mapped_circuit with repetition ids vs plain repetition and deep recursion through Circuit.zip; the with_qubit_mapping / with_measurement_key_mapping / with_params / repeat(-1) / _with_rescoped_keys_ compositions pushed onto nested operations). Proved for every nesting depth, repetition count (positive or negative, non-zero), repetition ids, qubit/key/parameter maps and parent paths: the measurement keys and the qubits a nested operation reports equal those of its completely unrolled circuit; the unrolled circuit consists, moment by moment, of exactly the leaves a compositional semantics prescribes (which operation, inverted or not, on which qubits); key prefixing and key maps compose, control keys bind to the innermost enclosing bound measurement and never to a key bound later; remapping a condition changes only its key iff both replace_key implementations keep the other fields (two booleans read off the working tree on every run: both true since the F2 fix, so the faithful-remapping theorem is live on the tree and stops compiling if replace_key drops fields again); constructor compositions; repeat_until = least number of passes (under fuel). The zero-repetition case is refuted by a proved witness (F7). On every run the model is evaluated with vm_compute on generated nestings (depth 0-3) and compared exactly with the implementation: mapped_circuit shallow/deep moment by moment, measurement/control key sets, parameter names, qubits, is_measurement, touched key names and the fields after one further remapping of each kind; spec-level oracles on the real code compare the wrapped operation with its unrolled circuit by unitary (incl. the single-qubit fast path), deterministic simulation records, exact outcome distribution (scripted seed object enumerating every measurement branch), repeat_until loop counts, scoping templates with independently known outcomes, decompose / unroll_circuit_op* and remapping-commutes-with-unrolling.',
-    note='Trusted: Coq kernel; vf/checks/c12.py (building Cirq objects from case records, decoding Cirq objects back, printing Gallina literals, the Python oracles); vf/tables_c12.py. Leaves other than CircuitOperation are abstract (identifier, inversion flag, qubits, keys, conditions, one parameter) and are instantiated by six gate families, measurements and classically controlled gates; key equality is componentwise (path, name), equal to Cirq\'s string equality when no path component contains ":"; sympy conditions are restricted to five expression templates and modelled by simultaneous substitution (as the implementation does since the F13 fix); key-map / qubit-map collision checks of the with_* methods are not modelled (generated maps are injective); control keys and conditions of the unrolled circuit, parameter names and repeat_until are compared with the model but have no unrolling theorem; tagged or classically controlled CircuitOperations are covered by the simulation oracle only. known_findings/C12.json lists seven open signatures (F7, F14, F15, F16 x3, F18) and four fixed ones (F2 x2, F4, F13).',
+    text='Coq theorems (closed under the global context) over a hand-written Gallina model of measurement keys (path, name), key maps, scoped lookup of control keys, classical conditions and CircuitOperation with all its fields, written in the shape of the code (_mapped_any_loop: qubit map -> inverse for negative repetitions -> key map -> parameters; _mapped_single_loop: rescoping with the repetition id, then with parent path and extern keys; mapped_circuit with repetition ids vs plain repetition and deep recursion through Circuit.zip; the with_qubit_mapping / with_measurement_key_mapping / with_params / repeat(-1) / _with_rescoped_keys_ compositions pushed onto nested operations). Proved for every nesting depth, repetition count (positive or negative, non-zero), repetition ids, qubit/key/parameter maps and parent paths: the measurement keys and the qubits a nested operation reports equal those of its completely unrolled circuit; the unrolled circuit consists, moment by moment, of exactly the leaves a compositional semantics prescribes (which operation, inverted or not, on which qubits); key prefixing and key maps compose, control keys bind to the innermost enclosing bound measurement and never to a key bound later; remapping a condition changes only its key iff both replace_key implementations keep the other fields (two booleans read off the working tree on every run: both true since the F2 fix, so the faithful-remapping theorem is live on the tree and stops compiling if replace_key drops fields again); constructor compositions; repeat_until = least number of passes (under fuel). The zero-repetition case is refuted by a proved witness (F7). On every run the model is evaluated with vm_compute on generated nestings (depth 0-3) and compared exactly with the implementation: mapped_circuit shallow/deep moment by moment, measurement/control key sets, parameter names, qubits, is_measurement, touched key names and the fields after one further remapping of each kind; spec-level oracles on the real code compare the wrapped operation with its unrolled circuit by unitary (incl. the single-qubit fast path), deterministic simulation records, exact outcome distribution (scripted seed object enumerating every measurement branch), repeat_until loop counts, scoping templates with independently known outcomes, decompose / unroll_circuit_op* and remapping-commutes-with-unrolling. repeat_until loops at any nesting level (condition over a key of the loop body and a key measured in an enclosing sub-circuit that rescopes keys: repetition ids, parent paths, further enclosing levels, same-named top-level keys) are judged against a loop-free flat reference: each loop becomes k plain repetitions of its body followed by a classical control with the loop condition on a fresh ancilla, whose records certify that k is the do-while count; the loops\' control keys (per instance of the partial unrolling and of the whole circuit) and the simulation records of the wrapped and partially unrolled circuit must equal the reference (fixed grid for every seed + generated nests); two theorems back this oracle: one pass of a loop over body ++ [probe] is the pass over the body followed by the probe carrying exactly the mapped repeat_until condition (C12_until_scoped_as_last_control), and a further key map renames every key name the loop condition reads (C12_until_names_under_key_map; composing over the names of the body only, as the implementation does, is refuted: F20).',
+    note='Trusted: Coq kernel; vf/checks/c12.py (building Cirq objects from case records, decoding Cirq objects back, printing Gallina literals, the Python oracles); vf/tables_c12.py. Leaves other than CircuitOperation are abstract (identifier, inversion flag, qubits, keys, conditions, one parameter) and are instantiated by six gate families, measurements and classically controlled gates; key equality is componentwise (path, name), equal to Cirq\'s string equality when no path component contains ":"; sympy conditions are restricted to five expression templates and modelled by simultaneous substitution (as the implementation does since the F13 fix); key-map / qubit-map collision checks of the with_* methods are not modelled (generated maps are injective); control keys and conditions of the unrolled circuit, parameter names and repeat_until are compared with the model but have no unrolling theorem; tagged or classically controlled CircuitOperations are covered by the simulation oracle only. the flat reference of nested repeat_until loops exists only when every instance of a loop needs the same number (<= 4) of passes (other cases are skipped and counted), and it trusts the scoping of a classical control placed at the end of the loop body (covered by the key theorems and the struct correspondence). known_findings/C12.json lists eight open signatures (F7, F14, F15, F16 x3, F18, F20) and five fixed ones (F2 x2, F4, F13, F13b).',
     technique='Rocq/Coq proof over an executable Gallina model + vm_compute correspondence against the implementation + differential simulation oracles (exact branch enumeration)',
 )
 
@@ -31,6 +31,7 @@ def _templates():
         2: (2, lambda s: sympy.And(sympy.Eq(S(s[0]), 1), sympy.Eq(S(s[1]), 0))),
         3: (1, lambda s: sympy.Eq(sympy.IndexedBase(s[0])[0], 1)),
         4: (2, lambda s: S(s[0]) + 2 * S(s[1]) > 1),
+        5: (2, lambda s: sympy.Eq(S(s[0]), S(s[1]))),      # only generated for repeat_until conditions (two distinct keys)
     }
 
 
@@ -351,6 +352,17 @@ def key_stream(ctx, cirq, V, n):
         dom = rng.sample(NAMES, rng.randint(1, 4))
         m2 = rkmap(rng)
         rows_comp.append((dom, m, m2))
+    # fixed grid (every seed): a sympy condition over two keys with the SAME name at different path depths, under a prefix /
+    # rescoping that moves the shallower key onto the old name of the deeper one (simultaneous vs sequential rewriting)
+    for c, p, m, bind in cond_grid():
+        C = V.cond(c)
+        B = frozenset(V.key(b) for b in bind)
+        outs = [V.dcond(proto.with_measurement_key_mapping(C, dict(m))), V.dcond(proto.with_key_path_prefix(C, p)),
+                V.dcond(proto.with_rescoped_keys(C, p, B))]
+        rows_cond.append((c, p, m, bind, outs))
+        ctx.count('cond_ops:same-name-two-depths', ('c', c, p, m, bind), True,
+                  sample=dict(cond=c, path=p, key_map=m, bindable=bind, prefixed=outs[1], rescoped=outs[2]))
+        spec_cond(ctx, V, c, p, m, bind, outs)
     defs = ('Definition rows_0 : list (mkey * list string * kmap * mkey * mkey * mkey * mkey) := [\n' + ';\n'.join(
         f'({gK(k)}, {gL(p, gS)}, {gL(m, lambda x: f"({gS(x[0])}, {gS(x[1])})")}, {gK(a)}, {gK(b)}, {gK(c)}, {gK(d)})'
         for k, p, m, a, b, c, d in rows_key) + '].\n')
@@ -372,6 +384,21 @@ def key_stream(ctx, cirq, V, n):
             ctx.mark_broken('correspondence:cond_ops', f'model and implementation differ on {rows_cond[idx]}')
             ctx.violation('correspondence:cond_ops', f'condition model differs from the implementation on {c} path={p} map={m} bindable={b}: {o}',
                           dict(kind='cond', cond=c, path=p, key_map=m, bindable=b), found_input=False)
+
+
+def cond_grid():
+    rows = []
+    for eid in (2, 4):
+        for deep, shallow, p in ((('0',), (), ('0',)), (('p',), (), ('p',)), (('0', '0'), ('0',), ('0',)), (('p', 'p'), ('p',), ('p',)),
+                                 (('0',), (), ('p',)), (('0', 'p'), (), ('0', 'p'))):
+            for order in (0, 1):
+                ks = [(deep, 'a'), (shallow, 'a')]
+                if order:
+                    ks.reverse()
+                for bind in ([], [(p + shallow, 'a')], [(p[:1] + shallow, 'a'), (p + deep, 'a')], [(p + shallow, 'a'), (p + deep, 'a')]):
+                    for m in ([], [('a', 'b')]):
+                        rows.append((('sym', eid, ks), p, m, bind))
+    return rows
 
 
 def spec_keys_of(c):
@@ -406,8 +433,15 @@ def norm_cond(c):
     return (c[0], (tuple(c[1][0]), c[1][1])) + tuple(c[2:])
 
 
-def cond_defect_signature(c, got, want):
+F13B_SIG = 'F13b:SympyCondition:sequential-key-substitution:path-prefix-or-rescope'
+
+
+def cond_defect_signature(c, got, want, which=None):
     """Classify a condition whose remapping changed more than the key."""
+    if c[0] == 'sym' and which in ('path_prefix', 'rescope'):
+        return (F13B_SIG, 'SympyCondition._with_key_path_prefix_ / _with_rescoped_keys_ rewrite the keys of the expression one after the '
+                'other, so when the new name of one key is the old name of another key of the same expression (same name at two '
+                'path depths) the two keys are merged')
     if c[0] == 'key':
         return 'F2:KeyCondition.replace_key:index-dropped', 'KeyCondition.replace_key drops `index`'
     if c[0] == 'mask':
@@ -422,7 +456,7 @@ def spec_cond(ctx, V, c, p, m, bind, outs):
     want = spec_cond_images(c, p, m, bind)
     for which, got, w in zip(['key_map', 'path_prefix', 'rescope'], outs, want):
         if norm_cond(got) != norm_cond(w):
-            sig, what = cond_defect_signature(c, got, w)
+            sig, what = cond_defect_signature(c, got, w, which)
             ctx.violation(sig, f'{what}: {c} under {which} (path={list(p)}, map={m}) became {got}, expected {w}',
                           dict(kind='cond', cond=c, path=p, key_map=m, bindable=bind, which=which))
 
@@ -450,7 +484,8 @@ def s_names(o):
     if o['t'] == 'leaf':
         return [k[1] for k in o['mk']] + [k[1] for c in o['cs'] for k in spec_keys_of(c)]
     km = dict(o['km'])
-    return [km.get(n, n) for m in o['c'] for x in m for n in s_names(x)]
+    unt = [k[1] for k in spec_keys_of(o['until'])] if o.get('until') is not None else []
+    return [km.get(n, n) for n in [n for m in o['c'] for x in m for n in s_names(x)] + unt]
 
 
 def s_mnames(o):
@@ -481,8 +516,9 @@ def s_depth(o):
 class Gen:
     """Structured generator of nested CircuitOperation records (all keys written at user level: empty paths)."""
 
-    def __init__(self, rng, sim=False, classical=False, param_leaves=None):
+    def __init__(self, rng, sim=False, classical=False, param_leaves=None, loops=0.0):
         self.rng = rng
+        self.loops = loops      # probability that a measuring sub-circuit becomes a repeat_until loop (at any nesting level)
         self.sim = sim          # simulation-friendly: every control key bound, no parameters left, no symbolic reps
         self.classical = classical      # only X / CNOT leaves: records are fully determined
         self.param_leaves = (not sim) if param_leaves is None else param_leaves
@@ -566,7 +602,23 @@ class Gen:
             return None
         o = dict(t='sub', c=body, reps=reps, ids=None, use=False, qm=[], km=[], pm=[], pp=[], ext=[], until=None)
         bq = s_qubits(o)
-        if not self.sim and reps > 0 and rng.random() < 0.06:
+        if self.loops and measured and reps > 0 and rng.random() < self.loops:
+            # a repeat_until loop.  Its condition is written in the namespace of the body and uses a key measured by the body
+            # (the constructor demands one) and, most of the time, also a key the body does NOT measure: one visible in the
+            # enclosing scopes (measured earlier in an enclosing sub-circuit, or at top level)
+            o['reps'] = reps = 1
+            direct = sorted({k[1] for m in body for x in m if x['t'] == 'leaf' for k in x['mk']})
+            own = direct or sorted(set(measured))
+            extp = sorted(set(outer_names) - set(measured))
+            if extp and rng.random() < 0.7:
+                ks = [((), rng.choice(own)), ((), rng.choice(extp))]
+                if rng.random() < 0.5:
+                    ks.reverse()
+                o['until'] = ('sym', rng.choice([2, 4, 5, 5]), ks)
+            else:
+                c = rcond(rng, lambda: ((), rng.choice(own)), len(own))
+                o['until'] = ('key', c[1], -1) if (c[0] != 'sym' and rng.random() < 0.5) else c
+        elif not self.sim and reps > 0 and rng.random() < 0.06:
             o['reps'] = ('rsym', False, 'n')
         elif reps != 0:
             r = rng.random()
@@ -617,6 +669,9 @@ def observe(cirq, V, op):
     d['qubits'] = [int(q.x) for q in op.qubits]
     d['is_meas'] = bool(cirq.is_measurement(op))
     d['names'] = attempt(lambda: sorted({k.name for k in cirq.measurement_keys_touched(op)}))
+    # control keys of every operation of the shallow unrolling (nested operations, in particular repeat_until loops, as
+    # rescoped by this operation: the keys their conditions are bound to in the enclosing scope)
+    d['sck'] = attempt(lambda: [mkeyset(cirq.control_keys(o)) for o in op.mapped_circuit(deep=False).all_operations()])
     return d
 
 
@@ -627,7 +682,8 @@ def struct_row_text(r):
         gOp(r['rec']),
         '(' + ', '.join([gRes(o['shallow'], gCirc), gRes(o['deep'], gCirc), gRes(o['mkeys'], lambda l: gL(l, gK)),
                          gRes(o['ckeys'], lambda l: gL(l, gK)), gRes(o['pnames'], lambda l: gL(l, gS)),
-                         gL(o['qubits'], Z), gB(o['is_meas']), gRes(o['names'], lambda l: gL(l, gS))]) + ')',
+                         gL(o['qubits'], Z), gB(o['is_meas']), gRes(o['names'], lambda l: gL(l, gS)),
+                         gRes(o['sck'], lambda ll: gL(ll, lambda l: gL(l, gK)))]) + ')',
         '(' + ', '.join([pairs(r['g'], Z, Z), pairs(r['m2'], gS, gS), pairs(r['pm2'], gS, gP), gL(r['path'], gS),
                          gL(r['bind'], gK)]) + ')',
         '(' + ', '.join([gRes(t['qmap'], gOp), gRes(t['kmap'], gOp), gRes(t['resolve'], gOp), gRes(t['rescope'], gOp),
@@ -650,9 +706,9 @@ def struct_row(cirq, V, op, D, obs, g, m2, pm2, path, bind):
                                 bind=bind, tr=transforms(cirq, V, op, g, m2, pm2, path, bind)))
 
 
-def struct_stream(ctx, cirq, V, n, unroll_n=60):
+def struct_stream(ctx, cirq, V, n, unroll_n=60, gen=None, tag='struct'):
     rng = ctx.rng
-    gen = Gen(rng)
+    gen = gen or Gen(rng)
     rows = []
     tries = 0
     while len(rows) < n and tries < 20 * n and not over_time(ctx):
@@ -663,7 +719,7 @@ def struct_stream(ctx, cirq, V, n, unroll_n=60):
             continue
         built = attempt(lambda: V.sub(rec))
         if built[0] != 'ok':
-            ctx.count('struct:rejected', ('rej', len(rows), tries), False)
+            ctx.count(f'{tag}:rejected', ('rej', len(rows), tries), False)
             continue
         op = built[1]
         D = V.dsub(op)
@@ -692,7 +748,7 @@ def struct_stream(ctx, cirq, V, n, unroll_n=60):
                          bind=bind, tr=tr))
         dd = s_depth(D)
         nontriv = dd >= 2 or bool(D['qm'] or D['km'] or D['pp'] or D['ids']) or D['reps'] not in (1,)
-        ctx.count(f'struct:depth{dd - 1}', D, nontriv,
+        ctx.count(f'{tag}:depth{dd - 1}', D, nontriv,
                   sample=dict(op=repr(op)[:600], measurement_keys=obs['mkeys'], control_keys=obs['ckeys'],
                               deep_moments=(len(obs['deep'][1]) if obs['deep'][0] == 'ok' else obs['deep'][1])))
         for feat in struct_features(D):
@@ -709,7 +765,7 @@ def struct_stream(ctx, cirq, V, n, unroll_n=60):
         for j in range(1, len(STRUCT_PREDS)):
             defs += f'Definition rows_{j} := rows_0.\n'
         evals = [(name, None, pred) for name, pred in STRUCT_PREDS]
-        bad = run_coq(ctx, f'struct{ci // CH}', defs, evals)
+        bad = run_coq(ctx, f'{tag}{ci // CH}', defs, evals)
         for name, idxs in bad.items():
             bad_all.setdefault(name, []).extend(ci + i for i in idxs)
     for name, idxs in bad_all.items():
@@ -718,6 +774,9 @@ def struct_stream(ctx, cirq, V, n, unroll_n=60):
             got = r['obs'].get(name, r['tr'].get(name))
             if sym_collision(r['rec'], [dict(r['m2'])] if name == 'kmap' else []) and confirm_f13(ctx, cirq, V):
                 ctx.streams['explained:F13'] += 1
+                continue
+            if f20_pattern(r['rec'], [dict(r['m2'])] if name == 'kmap' else []) and confirm_f20(ctx, cirq, V):
+                ctx.streams['explained:F20'] += 1      # the model renames the outside key of a loop condition (the specification)
                 continue
             ctx.mark_broken(f'correspondence:struct:{name}', f'case {idx}: {r["rec"]} -> implementation {got}')
             ctx.violation(f'correspondence:struct:{name}',
@@ -732,18 +791,19 @@ Definition mc (deep : bool) (o : op) : res circ :=
   match o with OSub c f => mapped_circuit kK kM 8 deep c f | OLeaf _ => ErrValue end.
 Definition strset_eqb (a b : list string) : bool := set_eqb String.eqb a b.
 Definition zfun (g : list (Z * Z)) (q : Z) : Z := zlookup g q.
-Definition obs_t := (res circ * res circ * res (list mkey) * res (list mkey) * res (list string) * list Z * bool * res (list string))%type.
+Definition obs_t := (res circ * res circ * res (list mkey) * res (list mkey) * res (list string) * list Z * bool * res (list string) * res (list (list mkey)))%type.
 Definition par_t := (list (Z * Z) * kmap * pmap * list string * list mkey)%type.
 Definition tr_t := (res op * res op * res op * res op * res op)%type.
 Definition row_t := (op * obs_t * par_t * tr_t)%type.
-Definition o_sh (r : row_t) := match r with (_, (a, _, _, _, _, _, _, _), _, _) => a end.
-Definition o_dp (r : row_t) := match r with (_, (_, a, _, _, _, _, _, _), _, _) => a end.
-Definition o_mk (r : row_t) := match r with (_, (_, _, a, _, _, _, _, _), _, _) => a end.
-Definition o_ck (r : row_t) := match r with (_, (_, _, _, a, _, _, _, _), _, _) => a end.
-Definition o_pn (r : row_t) := match r with (_, (_, _, _, _, a, _, _, _), _, _) => a end.
-Definition o_qs (r : row_t) := match r with (_, (_, _, _, _, _, a, _, _), _, _) => a end.
-Definition o_im (r : row_t) := match r with (_, (_, _, _, _, _, _, a, _), _, _) => a end.
-Definition o_nm (r : row_t) := match r with (_, (_, _, _, _, _, _, _, a), _, _) => a end.
+Definition o_sh (r : row_t) := match r with (_, (a, _, _, _, _, _, _, _, _), _, _) => a end.
+Definition o_dp (r : row_t) := match r with (_, (_, a, _, _, _, _, _, _, _), _, _) => a end.
+Definition o_mk (r : row_t) := match r with (_, (_, _, a, _, _, _, _, _, _), _, _) => a end.
+Definition o_ck (r : row_t) := match r with (_, (_, _, _, a, _, _, _, _, _), _, _) => a end.
+Definition o_pn (r : row_t) := match r with (_, (_, _, _, _, a, _, _, _, _), _, _) => a end.
+Definition o_qs (r : row_t) := match r with (_, (_, _, _, _, _, a, _, _, _), _, _) => a end.
+Definition o_im (r : row_t) := match r with (_, (_, _, _, _, _, _, a, _, _), _, _) => a end.
+Definition o_nm (r : row_t) := match r with (_, (_, _, _, _, _, _, _, a, _), _, _) => a end.
+Definition o_sc (r : row_t) := match r with (_, (_, _, _, _, _, _, _, _, a), _, _) => a end.
 Definition r_op (r : row_t) := match r with (o, _, _, _) => o end.
 Definition p_g (r : row_t) := match r with (_, _, (a, _, _, _, _), _) => a end.
 Definition p_m (r : row_t) := match r with (_, _, (_, a, _, _, _), _) => a end.
@@ -756,6 +816,7 @@ Definition t_r (r : row_t) := match r with (_, _, _, (_, _, a, _, _)) => a end.
 Definition t_s (r : row_t) := match r with (_, _, _, (_, _, _, a, _)) => a end.
 Definition t_i (r : row_t) := match r with (_, _, _, (_, _, _, _, a)) => a end.
 Definition kmap_top (m : kmap) (o : op) : op := if isnil (op_names o) then o else t_kmap kK kM m o.
+Definition sck (o : op) : res (list (list mkey)) := do c <- mc false o; mapM (op_ckeys kK kM 8) (List.concat c).
 """
 
 STRUCT_PREDS = [
@@ -772,6 +833,7 @@ STRUCT_PREDS = [
     ('resolve', 'fun r : row_t => res_eqb op_eqb (Ok (if isnil (p_p r) then r_op r else t_resolve (p_p r) (r_op r))) (t_r r)'),
     ('rescope', 'fun r : row_t => res_eqb op_eqb (Ok (t_rescope kK kM (p_path r) (p_b r) (r_op r))) (t_s r)'),
     ('inv', 'fun r : row_t => res_eqb op_eqb (t_inv (r_op r)) (t_i r)'),
+    ('sck', 'fun r : row_t => res_eqb (list_eqb\' keyset_eqb) (sck (r_op r)) (o_sc r)'),
 ]
 
 
@@ -813,6 +875,22 @@ def trace_sig(cirq, ops):
                 seq[-1] = ('C', tuple(sorted(seq[-1][1] + (r,))))
             else:
                 seq.append(('C', (r,)))
+    return sig
+
+
+def qubit_order_sig(cirq, ops):
+    """Per-qubit subsequences of the operations with every measurement / control KEY erased: two sequences with equal
+    signatures apply the same gates in the same order on every qubit (they may still differ in how operations on
+    different qubits are ordered through a shared key, or in which key a control reads)."""
+    sig = {}
+    for o in ops:
+        base = o.without_classical_controls()
+        ctl = 'C|' if isinstance(o, cirq.ClassicallyControlledOperation) else ''
+        if isinstance(base.gate, cirq.MeasurementGate):
+            base = base.gate.with_key('_').on(*base.qubits)
+        r = ctl + repr(base)
+        for q in o.qubits:
+            sig.setdefault(repr(q), []).append(r)
     return sig
 
 
@@ -988,7 +1066,7 @@ def shrink(rec, fails, budget=400):
         progress = False
         for cand in _variants(cur):
             n += 1
-            if n >= budget:
+            if n >= budget or SHRINK['spent'] + (time.time() - t0) >= SHRINK['limit']:
                 break
             try:
                 if fails(cand):
@@ -1029,7 +1107,10 @@ def unroll_defect(cirq, V, name, D, inner_first=False):
     a, b = trace_sig(cirq, r[1].all_operations()), trace_sig(cirq, flat.all_operations())
     if a == b:
         return ''
-    if any(a.get(k) != b.get(k) for k in set(a) | set(b) if k[0] == 'q'):
+    # which resource does the exchanged pair share?  Only a different gate order on some qubit is a qubit reorder; when every
+    # qubit sees the same gates in the same order, the difference is in the key dependencies (an operation moved across a
+    # measurement / control of a key it shares with an operation on OTHER qubits, possibly changing what a control binds to)
+    if qubit_order_sig(cirq, r[1].all_operations()) != qubit_order_sig(cirq, flat.all_operations()):
         return 'reorders-operations-on-a-qubit'
     return 'reorders-operations-on-a-key'
 
@@ -1131,6 +1212,9 @@ def spec_commute(ctx, cirq, V, op, D, g, m2, pm2, path, bind):
                                          trace_sig(cirq, a[1].all_operations()) == trace_sig(cirq, b[1].all_operations()))
         if not same:
             if name == 'key-map' and sym_collision(D, [m2]) and confirm_f13(ctx, cirq, V):
+                continue
+            if name == 'key-map' and f20_pattern(D, [m2]) and confirm_f20(ctx, cirq, V):
+                ctx.streams['explained:F20'] += 1
                 continue
             if a[0] == b[0] == 'ok' and strip_payload(V.dcirc(a[1])) == strip_payload(V.dcirc(b[1])) and confirm_f2(ctx, cirq, V):
                 continue        # the two sides differ only in the fields replace_key drops
@@ -1346,7 +1430,7 @@ def cond_value(c, records):
     vs = [val(k) for k in c[2]]
     e = c[1]
     return {0: lambda: vs[0][0] == 1, 1: lambda: vs[0][0] > 1, 2: lambda: vs[0][0] == 1 and vs[1][0] == 0,
-            3: lambda: vs[0][1][0] == 1, 4: lambda: vs[0][0] + 2 * vs[1][0] > 1}[e]()
+            3: lambda: vs[0][1][0] == 1, 4: lambda: vs[0][0] + 2 * vs[1][0] > 1, 5: lambda: vs[0][0] == vs[1][0]}[e]()
 
 
 class Timeout(Exception):
@@ -1633,6 +1717,326 @@ def dist_stream(ctx, cirq, V, n):
 
 
 # ----------------------------------------------------------------------------------------------------------------
+# stream 8: repeat_until loops at ANY nesting level, judged against a flat reference.
+#   Reference: every loop L = CircuitOperation(body, repeat_until=c) of the nest is replaced by the plain repetition
+#   CircuitOperation(body + probe, repetitions=k_L), where the probe is a classically controlled X on a fresh ancilla with
+#   the SAME condition c, placed in a new last moment of the body (then measured into a fresh key and reset).  A
+#   classical control at the end of the body is in the scope the loop condition is in (it sees the keys of the body and,
+#   through the enclosing rescoping, the keys of the enclosing sub-circuits), and its scoping is what the key theorems and
+#   the struct correspondence are about.  The reference nest has no loops, so mapped_circuit(deep=True) flattens it; the
+#   probe records say after which pass the condition held.  A count assignment (k_L) is the do-while semantics of the
+#   nest iff in every executed instance the probe reads false after passes 1..k-1 and true after pass k.  Then
+#     - simulating the nest with its loops (and its partial unrolling that keeps the loops) must give the reference records,
+#     - every loop instance of the partial unrolling must report the control keys the probe reads (minus its own keys),
+#     - the circuit must report the unbound control keys of the reference.
+PROBE_Q0 = 4
+KMAX = 4
+F20_SIG = 'F20:repeat_until:enclosing-key-map-skips-condition-key-not-touched-by-the-body'
+F20_WHAT = ('F20 CircuitOperation.with_measurement_key_mapping composes the new map only over the keys the wrapped circuit touches '
+            '(measurement_keys_touched(self.circuit)), so a repeat_until key that the loop body does not touch (a key measured in '
+            'an enclosing scope) is NOT renamed: under an enclosing measurement_key_map (or a direct with_measurement_key_mapping) '
+            'the loop condition keeps reading the old name while a classical control with the same condition in the same place '
+            'reads the renamed key; for the same reason an entry of the loop\'s own measurement_key_map for such a key is dropped by '
+            'any further with_measurement_key_mapping call (also one with an unrelated or empty map)')
+
+
+def loops_of(D, path=()):
+    """Index paths of the repeat_until loops of a nest record, outermost first."""
+    if D['t'] == 'leaf':
+        return []
+    out = [path] if D['until'] is not None else []
+    for i, m in enumerate(D['c']):
+        for j, x in enumerate(m):
+            out += loops_of(x, path + ((i, j),))
+    return out
+
+
+def sub_at(D, path):
+    for i, j in path:
+        D = D['c'][i][j]
+    return D
+
+
+def probe_moments(idx, until):
+    anc, nm = PROBE_Q0 + idx, f'u{idx}'
+    X = lambda cs: dict(t='leaf', uid=5, sgn=False, qs=[anc], mk=[], cs=cs, ps=[])
+    return [[X([until])], [dict(t='leaf', uid=Vocab.MEAS, sgn=False, qs=[anc], mk=[((), nm)], cs=[], ps=[])],
+            [X([('key', ((), nm), -1)])]]
+
+
+def loops_replaced(D, ks, probe=True):
+    """The loop-free reference nest: loop number idx (at path) becomes `ks[path] = (idx, k)` plain repetitions of body+probe."""
+    def go(o, path):
+        if o['t'] == 'leaf':
+            return o
+        o2 = dict(o, c=[[go(x, path + ((i, j),)) for j, x in enumerate(m)] for i, m in enumerate(o['c'])])
+        if path in ks:
+            idx, k = ks[path]
+            o2 = dict(o2, c=o2['c'] + (probe_moments(idx, o['until']) if probe else []), until=None, reps=k)
+        return o2
+    return go(D, ())
+
+
+def is_probe_key(k):
+    nm = k.split(':')[-1]
+    return len(nm) >= 2 and nm[0] == 'u' and nm[1:].isdigit()
+
+
+def loop_reference(cirq, V, prep, D, loops):
+    """(counts, reference records without the probe keys, flat reference circuit) or None when no uniform count assignment
+    with k <= KMAX per loop realises the do-while semantics (a loop that needs different counts in different instances,
+    more passes, or reads an unbound key)."""
+    pre = [cirq.Moment(V.op(o) for o in m) for m in prep]
+    fin = cirq.Moment(cirq.measure(*[V.q(i) for i in range(4)], key='fin'))
+    for ks in sorted(itertools.product(range(1, KMAX + 1), repeat=len(loops)), key=lambda t: (sum(t), t)):
+        Dp = loops_replaced(D, {p: (i, k) for i, (p, k) in enumerate(zip(loops, ks))})
+        r = attempt(lambda: V.sub(Dp).mapped_circuit(deep=True))
+        if r[0] != 'ok':
+            return None
+        circuit = cirq.Circuit(pre + list(r[1].moments) + [fin])
+        rec = attempt(lambda: records_of(cirq, circuit))
+        if rec[0] != 'ok':
+            return None
+        good = True
+        for i, k in enumerate(ks):
+            for key, v in rec[1].items():
+                if key.split(':')[-1] == f'u{i}':
+                    vals = [int(inst[0]) for inst in v[0]]
+                    if len(vals) % k or any(vals[j:j + k] != [0] * (k - 1) + [1] for j in range(0, len(vals), k)):
+                        good = False
+        if good:
+            return ks, {k_: v for k_, v in rec[1].items() if not is_probe_key(k_)}, circuit
+    return None
+
+
+def expand_keep_loops(cirq, op):
+    """The unrolling of `op` in which repeat_until loops stay operations (with the scope the unrolling gives them)."""
+    if op.repeat_until is not None:
+        return cirq.Circuit(op)
+    return op.mapped_circuit(deep=False).map_operations(
+        lambda o: expand_keep_loops(cirq, o) if isinstance(o, cirq.CircuitOperation) else o)
+
+
+def kset(keys):
+    return sorted(str(k) for k in keys)
+
+
+def nested_until_defect(cirq, V, prep, D):
+    """('' | 'skip' | kind, detail)."""
+    loops = loops_of(D)
+    if not loops or len(loops) > 2:
+        return 'skip', ''
+    ref = loop_reference(cirq, V, prep, D, loops)
+    if ref is None:
+        return 'skip', ''
+    ks, want, refc = ref
+    pre = [cirq.Moment(V.op(o) for o in m) for m in prep]
+    fin = cirq.Moment(cirq.measure(*[V.q(i) for i in range(4)], key='fin'))
+    op = V.sub(D)
+    wrapped = cirq.Circuit(pre + [cirq.Moment(op), fin])
+    # (a) the partial unrolling: loop instances and the keys their conditions are bound to
+    part = attempt(lambda: expand_keep_loops(cirq, op))
+    if part[0] != 'ok':
+        return 'partial-unrolling-raises-' + part[1], str(part[2:])
+
+    def keys_issue():
+        canon = [runner.canon(sub_at(D, p)['c']) for p in loops]
+        top = [p for p in loops if not any(p[:n] in loops for n in range(len(p)))]       # loops not inside another loop
+        if len(set(canon)) == len(canon):
+            flat_ops = list(refc.all_operations())
+            for p in top:
+                i = loops.index(p)
+                k = ks[i]
+                probes = [o for o in flat_ops if isinstance(o, cirq.ClassicallyControlledOperation) and o.qubits == (V.q(PROBE_Q0 + i),)
+                          and not any(is_probe_key(str(c_)) for c_ in cirq.control_keys(o))][::k]
+                insts = [o for o in part[1].all_operations() if isinstance(o, cirq.CircuitOperation)
+                         and runner.canon(V.dcirc(o.circuit)) == canon[i]]
+                if len(insts) != len(probes):
+                    return 'loop-instances', f'{len(insts)} instances of loop {i} in the unrolling, {len(probes)} in the reference'
+                for n, (inst, pr) in enumerate(zip(insts, probes)):
+                    own = cirq.measurement_key_objs(inst)
+                    body_only = inst.replace(repeat_until=None)
+                    want_ck = kset((set(cirq.control_keys(pr)) - set(own)) | set(cirq.control_keys(body_only)))
+                    got_ck = kset(cirq.control_keys(inst))
+                    if got_ck != want_ck:
+                        return 'control-keys-of-loop', (f'instance {n} of the loop with condition {inst.repeat_until} (parent_path='
+                                                        f'{inst.parent_path}) reports control keys {got_ck}; a classical control with the '
+                                                        f'same condition at the end of the loop body reads {kset(cirq.control_keys(pr))}, so '
+                                                        f'the loop must report {want_ck}')
+        gc = attempt(lambda: kset(cirq.control_keys(wrapped)))
+        if gc[0] != 'ok':
+            return 'control-keys-of-circuit:raises-' + gc[1], str(gc[2:])
+        got_c, want_c = gc[1], kset(cirq.control_keys(refc))
+        if got_c != want_c:
+            return 'control-keys-of-circuit', f'the circuit reports unbound control keys {got_c}, its flat reference {want_c}'
+        return None
+
+    # (b) simulation
+    def sim_issue():
+        for name, c in (('wrapped', wrapped), ('partially-unrolled', cirq.Circuit(pre + list(part[1].moments) + [fin]))):
+            w = attempt(lambda: with_timeout(1.5, lambda: records_of(cirq, c)))
+            if w[0] != 'ok':
+                return ((f'simulation-{name}:does-not-stop' if w[1] == 'Timeout' else f'simulation-{name}:raises-{w[1]}'),
+                        f'{str(w[2:])[:200]}; flat reference (passes per loop {ks}): {want}')
+            if w[1] != want:
+                return f'simulation-{name}:records', f'records {w[1]}, flat reference (passes per loop {ks}) {want}'
+        return None
+
+    a = attempt(keys_issue)
+    if a[0] != 'ok':
+        return 'control-keys:raises-' + a[1], str(a[2:])
+    b = sim_issue()
+    if a[1] is not None:
+        return a[1][0], a[1][1] + (f'; simulation: {b[0]}: {b[1]}' if b else '; simulation agrees with the reference')
+    return b if b else ('', '')
+
+
+def f20_pattern(D, extra_maps=()):
+    """Does some loop condition use a key name its body does not touch, which an ENCLOSING key map (or a further
+    with_measurement_key_mapping, `extra_maps`) renames?"""
+    def body_names(o):
+        return {n for m in o['c'] for x in m for n in s_names(x)}
+
+    def walk(o, maps):
+        if o['t'] == 'leaf':
+            return False
+        if o['until'] is not None:
+            km = dict(o['km'])
+            for k in spec_keys_of(o['until']):
+                if k[1] not in body_names(o):
+                    if maps and k[1] in km:         # any with_measurement_key_mapping call rebuilds the dict over the body's names:
+                        return True                 # the operation's own entry for the outside key is lost
+                    n = km.get(k[1], k[1])
+                    for m in maps:          # innermost enclosing map first
+                        if n in m:
+                            return True
+                        n = m.get(n, n)
+        maps2 = ([dict(o['km'])] if o['km'] else []) + maps
+        return any(walk(x, maps2) for m in o['c'] for x in m)
+    return walk(D, [dict(m) for m in extra_maps])
+
+
+def confirm_f20(ctx, cirq, V):
+    """The minimal failing input of F20 on the real code."""
+    loop = dict(t='sub', c=[[dict(t='leaf', uid=5, sgn=False, qs=[2], mk=[], cs=[], ps=[])],
+                            [dict(t='leaf', uid=Vocab.MEAS, sgn=False, qs=[2], mk=[((), 'b')], cs=[], ps=[])]],
+                reps=1, ids=None, use=False, qm=[], km=[], pm=[], pp=[], ext=[], until=('sym', 5, [((), 'a'), ((), 'b')]))
+    op = V.sub(loop)
+    got = kset(cirq.control_keys(cirq.with_measurement_key_mapping(op, {'a': 'z'})))
+    ctl = V.cond(loop['until'])
+    want = kset(set(cirq.with_measurement_key_mapping(ctl, {'a': 'z'}).keys) - set(cirq.measurement_key_objs(op)))
+    if got != want:
+        ctx.violation(F20_SIG, F20_WHAT + f': CircuitOperation([X(q2); M(q2, key=b)], repeat_until=Eq(a, b)) under {{a: z}} reports control '
+                      f'keys {got}, expected {want}', dict(kind='nested-until', prep=[], rec=dict(
+                          t='sub', c=[[loop]], reps=1, ids=None, use=False, qm=[], km=[('a', 'z')], pm=[], pp=[], ext=[], until=None)))
+        return True
+    return False
+
+
+def struct_loops_stream(ctx, cirq, V, n):
+    """The struct correspondence on nests in which measuring sub-circuits are repeat_until loops at any level (their keys,
+    control keys - also of every operation of the shallow unrolling -, names and the further remappings vs the model)."""
+    return struct_stream(ctx, cirq, V, n, unroll_n=0, gen=Gen(ctx.rng, loops=0.5), tag='structloops')
+
+
+def until_grid():
+    """Fixed cases (every seed): a loop whose condition compares a key of its body with a key measured OUTSIDE the loop,
+    inside an enclosing sub-circuit that rescopes keys (repetition ids, parent path, both, one more enclosing level), with
+    and without an unrelated top-level measurement of the same name."""
+    X = lambda q: dict(t='leaf', uid=5, sgn=False, qs=[q], mk=[], cs=[], ps=[])
+    M = lambda q, n: dict(t='leaf', uid=Vocab.MEAS, sgn=False, qs=[q], mk=[((), n)], cs=[], ps=[])
+    S = lambda c, **kw: dict(dict(t='sub', c=c, reps=1, ids=None, use=False, qm=[], km=[], pm=[], pp=[], ext=[], until=None), **kw)
+    cases = []
+    encl = [dict(reps=2, use=True), dict(reps=2, use=True, ids=['x', 'y']), dict(pp=['p']), dict(reps=2, use=True, pp=['p']),
+            dict(reps=2, pp=['p', 'r']), dict()]
+    wraps = [None, dict(pp=['w']), dict(reps=1, use=True, ids=['u'])]
+    conds = [('sym', 5, [((), 'a'), ((), 'b')]), ('sym', 5, [((), 'b'), ((), 'a')]), ('sym', 2, [((), 'b'), ((), 'a')]),
+             ('sym', 2, [((), 'a'), ((), 'b')]), ('sym', 4, [((), 'a'), ((), 'b')]), ('sym', 4, [((), 'b'), ((), 'a')])]
+    for ci, cnd in enumerate(conds):
+        for ei, e in enumerate(encl):
+            for wi, w in enumerate(wraps):
+                for top in (None, 0, 1):            # an unrelated top-level measurement `a` with this value (on another qubit)
+                    for amode in ('const0', 'const1', 'alternating'):       # the values the enclosing sub-circuit measures into ITS `a`
+                        for lk in ([], [('b', 'c')])[:2 if (ci + ei + wi) % 3 == 0 else 1]:     # key map on the loop itself
+                            loop = S([[X(2)], [M(2, 'b')]], until=cnd, km=lk)
+                            body = ([[X(1)]] if amode == 'alternating' else []) + [[M(1, 'a')], [loop]]
+                            nest = S(body, **e)
+                            if w is not None:
+                                nest = S([[nest]], **w)
+                            prep = [[X(1)]] if amode == 'const1' else []
+                            if top is not None:
+                                prep = prep + ([[X(0)]] if top else []) + [[M(0, 'a')]]
+                            cases.append((dict(cond=ci, encl=ei, wrap=wi, top=top, a=amode, lk=len(lk)), prep, nest))
+    return cases
+
+
+def report_nested(ctx, cirq, V, prep, D, kind, detail, desc=None):
+    if f20_pattern(D) and confirm_f20(ctx, cirq, V):
+        ctx.streams['explained:F20'] += 1
+        return
+    if (kind.startswith('control-keys') or kind == 'loop-instances') and has_zero_reps(cirq, V.sub(D)):
+        ctx.violation(F7_SIG, F7_WHAT + f' (a repeat_until loop under zero repetitions: {kind}: {detail})'[:600], dict(
+            kind='nested-until', prep=prep, rec=D, defect=kind))
+        return
+    sig = 'until-nested:' + kind
+    fails = lambda x: bool(loops_of(x)) and nested_until_defect(cirq, V, prep, x)[0] == kind
+    small = D if seen(ctx, sig) else shrink(D, fails, budget=60)
+    kd, detail2 = nested_until_defect(cirq, V, prep, small) if small is not D else (kind, detail)
+    ctx.violation(sig, (f'repeat_until loop inside sub-circuits vs its flat reference (loop -> plain repetitions of body + a classical '
+                        f'control with the loop condition): {kind}: {detail2 or detail}'[:900] + f'; minimised operation {V.sub(small)!r}'[:1500]
+                        + f' after prep {prep}' + (f' [grid case {desc}]' if desc else '')),
+                  dict(kind='nested-until', prep=prep, rec=small, defect=kind))
+
+
+def nested_until_stream(ctx, cirq, V, n):
+    rng = ctx.rng
+    quick = ctx.tier == 'quick'
+    grid = until_grid()
+    # quick tier: a fixed third of the grid (the same for every seed) plus a seed-dependent sample of the rest
+    fixed = [g for i, g in enumerate(grid) if i % 7 == 0] if quick else grid
+    rest = [g for i, g in enumerate(grid) if i % 7 != 0] if quick else []
+    extra = rng.sample(rest, min(len(rest), 60)) if rest else []
+    for desc, prep, nest in fixed + extra:
+        if over_time(ctx):
+            break
+        built = attempt(lambda: V.sub(nest))
+        if built[0] != 'ok':
+            ctx.violation('until-nested:rejected', f'grid case {desc} is rejected by the constructor: {built[1:]}',
+                          dict(kind='nested-until', prep=prep, rec=nest, defect='rejected'))
+            continue
+        D = V.dsub(built[1])
+        kind, detail = nested_until_defect(cirq, V, prep, D)
+        if kind == 'skip':
+            ctx.streams['until-nested:grid-skipped(no uniform count <= %d)' % KMAX] += 1
+            continue
+        ctx.count('sim:until-nested:grid', (prep, D), True, sample=dict(case=desc, op=repr(built[1])[:500]))
+        if kind:
+            report_nested(ctx, cirq, V, prep, D, kind, detail, desc)
+    # F20 is exercised on every run (a key map of an enclosing operation that renames the outside key of the condition)
+    confirm_f20(ctx, cirq, V)
+    gen = Gen(rng, sim=True, classical=True, loops=0.6)
+    done = tries = 0
+    while done < n and tries < 60 * n and not over_time(ctx):
+        tries += 1
+        prep, names, rec = sim_case(rng, gen)
+        if rec is None or not loops_of(rec) or rec['until'] is not None and rng.random() < 0.7:
+            continue
+        built = attempt(lambda: V.sub(rec))
+        if built[0] != 'ok':
+            continue
+        D = V.dsub(built[1])
+        kind, detail = nested_until_defect(cirq, V, prep, D)
+        if kind == 'skip':
+            continue
+        done += 1
+        ext = any(k[1] not in {x for m in L['c'] for o in m for x in s_mnames(o)} for L in [sub_at(D, p) for p in loops_of(D)]
+                  for k in spec_keys_of(L['until']))
+        ctx.count('sim:until-nested:outside-key' if ext else 'sim:until-nested:own-keys', (prep, D), True, sample=dict(op=repr(built[1])[:500]))
+        if kind:
+            report_nested(ctx, cirq, V, prep, D, kind, detail)
+
+
+# ----------------------------------------------------------------------------------------------------------------
 def run(ctx):
     cirq = env.import_cirq()
     V = Vocab(cirq)
@@ -1643,7 +2047,12 @@ def run(ctx):
                 'further remapping of each kind per case; unitary: pure nests incl. single-qubit bodies; sim: X/CNOT/measure/control nests '
                 'with all control keys bound, optionally under a classical control; distribution: nests with <= 5 measured bits, all '
                 'branches enumerated; until: loops whose condition holds within 6 passes; scoping: two template families with known '
-                'outcome.  non-trivial = nesting depth >= 2 or any map / ids / path / repetitions != 1 (struct), >= 2 records (sim), '
+                'outcome; cond grid: sympy conditions over two keys with the same name at two path depths under prefix / rescoping '
+                '(fixed, every seed); struct_loops: the struct stream with measuring sub-circuits turned into repeat_until loops (p=0.5) '
+                'at any level, condition over an own key and (70%) a key of the enclosing scopes; until_nested: fixed grid (6 conditions '
+                'x 6 enclosing rescopings x 3 outer wrappers x top-level same-named key absent/0/1 x 3 value patterns; quick tier: every '
+                '7th case + 60 seed-dependent ones) and generated X/CNOT nests with <= 2 loops, each judged against the loop-free flat '
+                'reference.  non-trivial = nesting depth >= 2 or any map / ids / path / repetitions != 1 (struct), >= 2 records (sim), '
                 '>= 2 branches (distribution); distinct by canonical record')
     ctx.assumptions += ['vf/checks/c12.py: construction of Cirq objects from case records and decoding back',
                         'key equality modelled componentwise (no ":" inside path components)',
@@ -1659,7 +2068,8 @@ def run(ctx):
     SHRINK.update(t0=time.time(), spent=0.0)
     for name, f, nq, nt in (('keys', key_stream, 300, 3000), ('struct', struct_stream, 240, 2400), ('unitary', unitary_stream, 100, 1500),
                             ('sim', sim_stream, 120, 1500), ('until', until_stream, 40, 400), ('scoping', scope_stream, 60, 600),
-                            ('distribution', dist_stream, 60, 600)):
+                            ('distribution', dist_stream, 60, 600), ('struct_loops', struct_loops_stream, 60, 900),
+                            ('until_nested', nested_until_stream, 50, 800)):
         t = time.time()
         f(ctx, cirq, V, nq if quick else nt)
         timing[name + '_s'] = round(time.time() - t, 1)
@@ -1745,6 +2155,11 @@ def replay(ctx, data):
     if k == 'dist':
         d, a, b = dist_defect(cirq, V, D)
         print('distribution:', d or 'wrapped and unrolled agree', str(a[1])[:600])
+        return d in ('', 'skip')
+    if k == 'nested-until':
+        prep = [[norm_rec(o) for o in m] for m in data['prep']]
+        d, detail = nested_until_defect(cirq, V, prep, D)
+        print('repeat_until loops vs flat reference:', (d + ': ' + detail) if d else 'agree')
         return d in ('', 'skip')
     if k in ('sim', 'until'):
         prep = [[norm_rec(o) for o in m] for m in data['prep']]
